@@ -198,6 +198,16 @@ func tinyModels() map[string][]byte {
 			hx.Node("Concat", []string{"y", "y"}, []string{"z"}, []hx.Attr{hx.AInt("axis", 1)}), hx.Node("Transpose", []string{"z"}, []string{"t"}, []hx.Attr{hx.AInts("perm", 1, 0)})},
 		Output: []*onnx.ValueInfoProto{hx.ValueInfo("t", ref.F32, []hx.DimSpec{{Fixed: 4}, {Param: "N"}}), hx.ValueInfoNoShape("c")}}
 	mk("mixed-attrs", g)
+	// initializers that are also declared as graph inputs (rank 0, 1, 2; declared with the same, a higher and a lower rank)
+	for _, decl := range [][]hx.DimSpec{{{Fixed: 2}, {Fixed: 2}}, {{Fixed: 2}}, {{Fixed: 2}, {Fixed: 2}, {Fixed: 1}}, {{Param: "N"}, {Fixed: 2}, {Fixed: 3}}, {}} {
+		for _, ish := range [][]int{{2, 2}, {2}, {}} {
+			iw := ref.Distinct(ref.F32, ish)
+			gi := &onnx.GraphProto{Name: "g", Input: []*onnx.ValueInfoProto{hx.ValueInfo("x", ref.F32, []hx.DimSpec{{Fixed: 2}, {Fixed: 2}}), hx.ValueInfo("w", ref.F32, decl)},
+				Initializer: []*onnx.TensorProto{hx.TensorProto("w", iw, "raw")},
+				Node:        []*onnx.NodeProto{hx.Node("Add", []string{"x", "w"}, []string{"y"}, nil)}, Output: []*onnx.ValueInfoProto{hx.ValueInfoNoShape("y")}}
+			mk(fmt.Sprintf("init-as-input-decl%d-init%v", len(decl), ish), gi)
+		}
+	}
 	cf := recCfg{Op: "LSTM", DT: "float32", S: 2, B: 1, I: 2, H: 2, HasB: true, HasH0: true, HasC0: true, HasP: true, Route: "model"}
 	j := cf.job()
 	mb, _, _ := hx.SingleNodeModel(j.oc)
@@ -368,6 +378,31 @@ func checkC18(c *hx.Checker) {
 					mutate(fmt.Sprintf("input%d.dim%d-nil", vi, di), func(m *onnx.ModelProto) { m.Graph.Input[vi].Type.GetTensorType().Shape.Dim[di] = nil })
 				}
 				mutate(fmt.Sprintf("input%d.shape-nil", vi), func(m *onnx.ModelProto) { m.Graph.Input[vi].Type.GetTensorType().Shape = nil })
+				mutate(fmt.Sprintf("input%d.dims+1", vi), func(m *onnx.ModelProto) {
+					sh := m.Graph.Input[vi].Type.GetTensorType().Shape
+					sh.Dim = append(sh.Dim, &onnx.TensorShapeProto_Dimension{Value: &onnx.TensorShapeProto_Dimension_DimValue{DimValue: 1}})
+				})
+				mutate(fmt.Sprintf("input%d.dims+3", vi), func(m *onnx.ModelProto) {
+					sh := m.Graph.Input[vi].Type.GetTensorType().Shape
+					for k := 0; k < 3; k++ {
+						sh.Dim = append(sh.Dim, &onnx.TensorShapeProto_Dimension{Value: &onnx.TensorShapeProto_Dimension_DimValue{DimValue: 3}})
+					}
+				})
+				if len(tt.Shape.Dim) > 0 {
+					mutate(fmt.Sprintf("input%d.dims-1", vi), func(m *onnx.ModelProto) {
+						sh := m.Graph.Input[vi].Type.GetTensorType().Shape
+						sh.Dim = sh.Dim[:len(sh.Dim)-1]
+					})
+					mutate(fmt.Sprintf("input%d.dims-first", vi), func(m *onnx.ModelProto) {
+						sh := m.Graph.Input[vi].Type.GetTensorType().Shape
+						sh.Dim = sh.Dim[1:]
+					})
+				}
+				// the declared input renamed to each initializer (an initializer that is also a graph input)
+				for ii := range mp.Graph.Initializer {
+					ii := ii
+					mutate(fmt.Sprintf("input%d.named-like-init%d", vi, ii), func(m *onnx.ModelProto) { m.Graph.Input[vi].Name = m.Graph.Initializer[ii].Name })
+				}
 			}
 		}
 		mutate("graph-nil", func(m *onnx.ModelProto) { m.Graph = nil })
@@ -377,7 +412,7 @@ func checkC18(c *hx.Checker) {
 	// opset versions
 	base := &onnx.ModelProto{}
 	proto.Unmarshal(seeds["mlp.onnx"], base)
-	versions := []int64{-1, math.MaxInt32 + 1, math.MaxInt64}
+	versions := []int64{-1, math.MaxInt32 + 1, math.MaxInt64, 13 + 256, 13 + 512, 13 + 65536, 13 + 1<<32, 13 - 256, 13 - 65536, 13 + 1<<16 + 1<<8, 13 + 1<<31, 13 + 1<<62, math.MinInt64 + 13, 14, 12, 130, 1300}
 	for v := int64(0); v <= 25; v++ {
 		versions = append(versions, v)
 	}
